@@ -15,6 +15,14 @@ Scenario:    [:ri] <all_sep 0|1> <ntests> ([:ign] test)*                      on
                wout ::= :ei (EINTR) | :er <errno> (other error) | :x <k> exited | :k <sig> <core> killed | :s <sig> stopped | :c continued
          | :real <n> act*n  x5  <n> inj*n          a real child; actions in plugin pre action, setup, body, teardown, plugin post action
                act ::= :r <sig> raise | :e <k> _exit | :f failing check        inj ::= :ei | :er | :re (faults in front of the real waitpid)
+         | :env <chld> <n> sib*n <eintr> <fields of :real>     a real child under a process-level configuration of the program, waited
+               for through the library's own PlatformSpecificFork / PlatformSpecificWaitPid implementations:
+               chld = SIGCHLD: 0 default | 1 SIG_IGN | 2 SA_NOCLDWAIT | 3 handler + SA_NOCLDWAIT | 4 a handler that reaps with waitpid(-1)
+                      first | 5 a handler that only counts;   sib ::= :sx <late> <k> | :sk <late> <sig>  other children of the process (dead
+                      before the fork / ending meanwhile);   eintr = genuine EINTR answers of the kernel before the child goes on.
+               Under 1-4 the kernel / the handler takes the child away: every stop is still reported, then the wait FAILS (ECHILD) --
+               a failing wait is one failure of that test, whatever the child's end was; a child that did not end with exit status 0
+               leaves at least one failure under EVERY configuration.
 Observation: per pass: per test ":t <started> <nf> cat*nf <waitpid calls> <SIGCONT seen> <lost>", then ":end <failures> <isFailure> <run> <ignored> <late>";
              after the passes that were completed ":died <pass> :killed|:exited|:stopped <n>" if the runner's own process died.
 With all_sep = 0 scripted and real tests carry their own separate-process flag; with all_sep = 1 no test carries one (every child
@@ -63,6 +71,16 @@ RULE = ("(a) scripted: every outcome stream of length <= 5 (quick) / <= 6 (thoro
         "plain tests that are run in the runner's process first and in a child after the switch; -r style repetitions with nothing changed "
         "between passes and tests dying from pass k on; scripted streams (EINTR at the bound, fork failure) in later passes; random "
         "programs of 2-4 steps repaired into the judged domain. "
+        "(f) real children waited for through the library's OWN PlatformSpecificFork / PlatformSpecificWaitPid implementations while the "
+        "program has changed the process-level configuration: SIGCHLD default / SIG_IGN / SA_NOCLDWAIT / handler + SA_NOCLDWAIT / a handler "
+        "that reaps with waitpid(-1) first / a handler that only counts, times a child killed by each of the 23 terminating signals "
+        "(SIGKILL included), _exit(0, 1, 2, 128, 255, random), a failing check in each phase, a stop by each stop signal (SIGSTOP included) "
+        "followed by a clean end / SIGKILL / SIGSEGV / _exit(0) / _exit(5) / a failing check / a second stop, a passing child; each with "
+        "other children of the process (exit 0, exit 3, killed; dead before the fork = a zombie to be picked up by a wait for any child, or "
+        "ending meanwhile), in first / middle / last position with a test behind it and the next test under another configuration; genuine "
+        "EINTR answers of the kernel (the child held back, a periodic timer signal with a non-restarting handler) 1, 2, bound-1, bound, "
+        "bound+1 times, alone and sharing the retry counter with injected ones; injected faults in front of the real wait; as IGNORE_TESTs "
+        "with and without -ri; in later passes (dormant / added late / mode switched on late); 150 (thorough 6000) random sequences. "
         "non-trivial = some test with an event other than a clean exit, or an injected/scripted wait fault")
 ASSUMPTIONS = ["Linux/glibc wait-status layout and the default signal actions of signal(7); signals 1..31 only for real children",
                "the harness keeps its process group from being orphaned, so SIGTSTP/SIGTTIN/SIGTTOU stop like SIGSTOP",
@@ -72,6 +90,12 @@ ASSUMPTIONS = ["Linux/glibc wait-status layout and the default signal actions of
                "one-pass lines: with the registry-wide flag no shell carries a flag of its own; several passes: every pass has a TestResult "
                "of its own (as every repetition of -r has), the modes can only be switched on, a test's behaviour depends on the pass "
                "number only through :from",
+               "process-level configurations (wait(2), sigaction(2), Linux; trusted, stated in C11_Model.v): with SIGCHLD ignored or SA_NOCLDWAIT, "
+               "or when a handler of the program has reaped the child first, waitpid(pid, WUNTRACED) still reports every stop and then fails "
+               "with ECHILD; a handler that does not reap and other children of the process change nothing; the library does not change the "
+               "program's SIGCHLD disposition (a library that resets it around the fork would be reported as a discrepancy in the failing-wait "
+               "account and has to be judged by hand); handlers installed by the harness restart system calls except the one that produces the "
+               "genuine EINTRs",
                "judged domain over passes: a scripted or real test that is run and shows its behaviour in a pass is in separate-process "
                "mode in that pass (own flag or the switch); a deadly test run in the runner's process by the program's own choice is "
                "not a containment question"]
@@ -85,6 +109,12 @@ def scr(ok, outs):
 def real(pre=(), setup=(), body=(), td=(), post=(), inj=()):
     f = lambda l: "%x%s" % (len(l), "".join(" " + a for a in l))
     return ":real %s %s %s %s %s %s" % (f(pre), f(setup), f(body), f(td), f(post), f(inj))
+
+
+def envt(chld=0, sibs=(), eintr=0, pre=(), setup=(), body=(), td=(), post=(), inj=()):
+    """a real child under a process-level configuration; sibs: [":sx 0 3", ":sk 1 9", ..]"""
+    r = real(pre, setup, body, td, post, inj)
+    return ":env %x %x%s %x %s" % (chld, len(sibs), "".join(" " + b for b in sibs), eintr, r[len(":real "):])
 
 
 def scen(all_sep, tests, ri=0):
@@ -258,6 +288,7 @@ def generate(tier, rng):
     out.append(scen(0, [real(body=[":r 13"], inj=[":re", ":er"]), real()]))
     out.extend(gen_ignored(quick, rng, tol))
     out.extend(gen_passes(quick, rng, tol))
+    out.extend(gen_env(quick, rng, tol))
     # (c) sequences
     n = 2500 if quick else 40000
     for _ in range(n):
@@ -337,6 +368,107 @@ def gen_ignored(quick, rng, tol):
             else:
                 ts.append(rnd_test(rng, tol))
         out.append(scen(1 if rng.random() < 0.7 else 0, ts, ri=1 if rng.random() < 0.8 else 0))
+    return out
+
+
+SIBS = [":sx 0 0", ":sx 0 3", ":sk 0 9", ":sx 1 0", ":sx 1 1", ":sk 1 b", ":sk 0 f"]
+
+
+def rnd_sibs(rng, n=None):
+    n = rng.choice([0, 1, 1, 2, 3]) if n is None else n
+    return [rng.choice(SIBS) for _ in range(n)]
+
+
+def gen_env(quick, rng, tol):
+    """(f) real children waited for through the library's own fork / waitpid implementations while the program has changed the
+    process-level configuration.  What must be met: the wait answers something else than the child's status (ECHILD because the
+    kernel or a handler took the child away, EINTR from a real signal), or another child's status is there to be picked up, and the
+    child of the test did NOT end with exit status 0 (each signal, each status class, a failing check, a stop first)."""
+    out = []
+    ends = []         # (point, actions)
+    for n, sig in enumerate(TERM):
+        pts = POINTS if (not quick or sig in (9, 11)) else [POINTS[(n * 2 + 1) % 5]]
+        for p in pts:
+            ends.append((p, [":r %x" % sig]))
+    ks = [0, 1, 2, 255, 128] + ([] if quick else [3, 127, 254]) + [rng.randrange(256) for _ in range(1 if quick else 10)]
+    for n, k in enumerate(ks):
+        for p in ([POINTS[n % 5]] if quick and k > 1 else POINTS if not quick else ["body", "td"]):
+            ends.append((p, [":e %x" % k]))
+    for p in POINTS:
+        ends.append((p, [":f"]))                                 # fails a check
+    # stopped first: SIGSTOP (uncatchable) and the catchable stop signals, then continued by the runner and: clean end / killed / exit / failed check
+    for n, stop in enumerate(STOP):
+        for after in ([], [":r 9"], [":r b"], [":e 0"], [":e 5"], [":f"], [":r %x" % STOP[(n + 1) % 4], ":r f"]):
+            ends.append((["setup", "body", "td", "pre", "post"][(n + len(after)) % 5] if quick else "body", [":r %x" % stop] + after))
+    if not quick:
+        for p in POINTS:
+            for after in ([], [":r 9"], [":e 0"], [":e 5"], [":f"]):
+                ends.append((p, [":r 13"] + after))
+    ends.append(("body", []))                                    # a child that passes
+    ends.append(("body", [":r 11", ":r 12"]))                    # ignored signals only
+    behind = [":plain 0", real(), envt(0), envt(5, [":sx 0 0"])]
+    for chld in range(6):
+        for n, (p, a) in enumerate(ends):
+            d = place(p, a)
+            sel = (n + chld) % 4
+            # alone with a passing test behind it (which must still be run, under the default configuration again)
+            out.append(scen((n + chld) & 1, [envt(chld, **d), behind[sel]]))
+            # other children of the process: dead before the fork (a zombie to be picked up by a wait for "any child"), ending meanwhile
+            if not quick or sel in (0, 1):
+                out.append(scen(1, [envt(chld, [SIBS[(n + chld) % len(SIBS)], ":sx 0 0"], **d), ":plain 0"]))
+            if not quick or sel == 2:
+                out.append(scen(0, [":plain 1", envt(chld, rnd_sibs(rng, 2) + [":sx 1 0"], **d), envt(chld, **d), real()]))
+            if not quick or sel == 3:
+                out.append(scen(1, [envt(chld, [":sx 1 0", ":sk 1 9"], **d), envt((chld + 1) % 6, [":sx 0 0"], **d), ":plain 0"]))
+    # genuine EINTR answers (the child is held back): below, at and past the retry bound; with each configuration; the child then dies
+    for chld in range(6):
+        for k in ([1, 2, tol - 1, tol, tol + 1] if chld in (0, 1) or not quick else [1, tol, tol + 1]):
+            for a in ([":r 9"], [], [":r 13", ":e 3"]) + (() if quick else ([":f"], [":r b"], [":e 0"])):
+                out.append(scen(1, [envt(chld, [], k, body=a), ":plain 0"]))
+            out.append(scen(0, [envt(chld, rnd_sibs(rng, 1), k, td=[":r 6"], inj=[":re", ":ei"]), real()]))
+    # genuine and injected interruptions share one retry counter
+    for k in (1, tol - 1, tol):
+        out.append(scen(0, [envt(1, [], k, body=[":r f"], inj=[":ei"] * (tol - k)), real()]))
+        out.append(scen(0, [envt(0, [], k, body=[":r f"], inj=[":ei"] * (tol - k + 1)), real()]))
+    # injected faults in front of the real wait under a configuration
+    for chld in (0, 1, 2, 4, 5):
+        for inj in ([":ei"], [":er"], [":re", ":ei"], [":re", ":er"], [":ei"] * tol, [":ei"] * (tol + 1)):
+            out.append(scen(chld & 1, [envt(chld, rnd_sibs(rng), 0, body=[":r 13", ":r 9"], inj=inj), real()]))
+    # IGNORE_TESTs under a configuration, with and without the switch; the registry-wide flag or the own flag
+    for chld in (1, 2, 3, 4):
+        for a in ([":r 9"], [":e 7"], [":f"], []):
+            for ri in (0, 1):
+                out.append(scen(1, [ign(envt(chld, [":sx 0 0"], body=a)), ":plain 0"], ri=ri))
+                out.append(scen(0, [":plain 1", ign(envt(chld, [], 1, setup=a)), real()], ri=ri))
+    # several passes: the configuration is there in the pass in which the test dies (dormant before / added late / the mode switched on late)
+    for chld in range(6):
+        for a in ([":r 9"], [":r b"], [":e 3"], [":f"], [":r 13", ":r 9"], []):
+            d = envt(chld, [":sx 0 0"] if chld != 3 else [], body=a)
+            out.append(mscen([stp(0, 0, [mt(d, frm=1), ":plain 0"]), stp(1, 0, [])]))
+            out.append(mscen([stp(1, 0, [":plain 0"]), stp(0, 0, [mt(d)])]))
+            if not quick:
+                out.append(mscen([stp(1, 0, [mt(d), real()]), stp(0, 0, []), stp(0, 0, [])]))
+                out.append(mscen([stp(0, 0, [mt(d, own=1), ":plain 0"]), stp(0, 0, [])]))
+    # random
+    for _ in range(150 if quick else 6000):
+        ts = []
+        for _ in range(rng.randrange(1, 5)):
+            c = rng.random()
+            if c < 0.65:
+                r = parse_test(rnd_real(rng, tol).split(), 0)[0]
+                eintr = 0 if rng.random() < 0.8 else rng.choice([1, 2, 3, tol - 1, tol, tol + 1])
+                ts.append(envt(rng.randrange(6), rnd_sibs(rng), eintr, *r[1:7]))
+            elif c < 0.8:
+                ts.append(rng.choice(PASSING))
+            else:
+                ts.append(rnd_test(rng, tol))
+        if rng.random() < 0.5:
+            ts.append(rng.choice(PASSING))
+        ri = 0
+        if rng.random() < 0.15:
+            ri = rng.randrange(2)
+            ts = [ign(t) if rng.random() < 0.3 else t for t in ts]
+        out.append(scen(rng.randrange(2), ts, ri))
     return out
 
 
@@ -475,6 +607,15 @@ def parse_test(t, i):
             outs.append(" ".join(t[i:i + w]))
             i += w
         return mk(["scr", ok, outs], ig, own, frm), i
+    env = None
+    if k == ":env":
+        chld, ns = int(t[i + 1], 16), int(t[i + 2], 16)
+        i += 3
+        sibs = []
+        for _ in range(ns):
+            sibs.append(" ".join(t[i:i + 3]))
+            i += 3
+        env = (chld, sibs, int(t[i], 16))
     i += 1
     ph = []
     for _ in range(5):
@@ -490,7 +631,16 @@ def parse_test(t, i):
     i += 1
     ph.append(t[i:i + m])
     i += m
-    return mk(["real"] + ph, ig, own, frm), i
+    return mk(["real"] + ph + [env], ig, own, frm), i
+
+
+def env_of(t):
+    """(chld, sibs, eintr) of a real test under a process-level configuration, else None"""
+    return t[7] if t[0] == "real" and len(t) > 7 else None
+
+
+AUTO = (1, 2, 3, 4)       # SIGCHLD configurations under which the child is taken away and the wait fails with ECHILD
+CHLD_NAME = ["default", "SIG_IGN", "SA_NOCLDWAIT", "handler+SA_NOCLDWAIT", "handler-reaps-first", "counting-handler"]
 
 
 def is_multi(s):
@@ -541,6 +691,9 @@ def fmt_test(t):
         return ":plain %x" % t[1]
     if t[0] == "scr":
         return scr(t[1], t[2])
+    e = env_of(t)
+    if e is not None:
+        return envt(e[0], e[1], e[2], *t[1:7])
     return real(*t[1:7])
 
 
@@ -613,7 +766,7 @@ def nontrivial(s):
     for t in tests:
         if t[0] == "scr" and (not t[1] or any(o != ":x 0" for o in t[2])):
             return True
-        if t[0] == "real" and any(t[1:7]):
+        if t[0] == "real" and (any(t[1:7]) or env_of(t) is not None):
             return True
     return False
 
@@ -668,6 +821,8 @@ def classify_multi(s):
                 how = "scripted-event"
             elif x[0] == "plain" and x[1] and (x.own or wsep):
                 how = "failing-check-in-child"
+            if env_of(x) is not None:
+                lab.extend(env_labels(x, source_bound()))
             if not how or k == 0:
                 continue
             ctx = []
@@ -693,6 +848,44 @@ def classify_multi(s):
             if how.startswith("dies@"):
                 lab.append("later-pass:" + how)
     return sorted(set(lab))
+
+
+def fate_class(t):
+    """how the child of a real test ends: killed-<sig class> | exit-0 | exit-nonzero | failed-check | clean, and whether it stopped first"""
+    tr = py_trace(["real"] + [list(x) for x in t[1:6]] + [[]])
+    last = tr[-1].split()
+    stops = len(tr) - 1
+    if last[0] == ":k":
+        sg = int(last[1], 16)
+        end = "killed-uncatchable" if sg == 9 else "killed-catchable"
+    elif int(last[1], 16) == 0:
+        end = "exit-0" if deadly_point(t) else "clean"
+    else:
+        end = "exit-nonzero" if deadly_point(t) else "failed-check"
+    return end, stops
+
+
+def env_labels(t, tol):
+    e = env_of(t)
+    if e is None:
+        return []
+    end, stops = fate_class(t)
+    lab = ["env", "env:sigchld-" + CHLD_NAME[e[0]], "env:%s:%s" % (CHLD_NAME[e[0]], end)]
+    if stops:
+        lab.append("env:%s:stopped-then-%s" % ("child-taken-away" if e[0] in AUTO else "child-reported", end))
+    for b in e[1]:
+        k = b.split()
+        lab.append("env:sibling-%s-%s" % ("late" if k[1] != "0" else "dead-before", "exit0" if (k[0] == ":sx" and int(k[2], 16) == 0) else
+                                         "exit-nonzero" if k[0] == ":sx" else "killed"))
+    if e[1] and end not in ("clean", "exit-0"):
+        lab.append("env:siblings-while-child-dies")
+    if e[2]:
+        lab.append("env:genuine-eintr:" + ("<tol" if e[2] < tol else "=tol" if e[2] == tol else ">tol"))
+    if t[6]:
+        lab.append("env:with-injected-faults")
+    if e[0] in AUTO and end in ("clean", "exit-0"):
+        lab.append("env:child-taken-away:clean-end-is-a-failing-wait")
+    return lab
 
 
 def classify(s):
@@ -738,6 +931,7 @@ def classify(s):
                         lab.append("check@" + name)
             if t[6]:
                 lab.append("inject")
+            lab.extend(env_labels(t, tol))
         else:
             lab.append("plain")
     return sorted(set(lab))
@@ -779,6 +973,9 @@ def py_trace(t):
     if fate is None:
         fate = ":x 1" if failed else ":x 0"
     evs = stops + [fate]
+    e = env_of(t)
+    if e is not None:
+        evs = [":ei"] * e[2] + stops + [":er a" if e[0] in AUTO else fate]
     out = []
     for i in t[6]:
         if i == ":re":
@@ -842,10 +1039,16 @@ def sig_pass(tests, seps, ri, toks, i, tol):
             f, c, reaped, seen = py_expect(outs, tol)
             want = (f, c, reaped or t[0] == "scr")
         ne = seen.count(":ei")
-        shape = "%s%s[%s%s]%s" % ("ignored(run) " if t.ign else "", t[0], "ei*%s " % ("<=tol" if ne <= tol else ">tol") if ne else "",
-                                 " ".join(x for x in seen if x != ":ei"), " after earlier failures" if earlier else "")
+        e = env_of(t)
+        cfg = ""
+        if e is not None:
+            cfg = "{SIGCHLD %s%s%s}" % (CHLD_NAME[e[0]], ", other children" if e[1] else "", ", genuine EINTR" if e[2] else "")
+        shape = "%s%s%s[%s%s]%s" % ("ignored(run) " if t.ign else "", t[0], cfg, "ei*%s " % ("<=tol" if ne <= tol else ">tol") if ne else "",
+                                   " ".join(x for x in seen if x != ":ei"), " after earlier failures" if earlier else "")
         if started != "1":
             return shape + " not started", i
+        if t[0] == "real" and nf == 0 and fate_class(t)[0] not in ("clean", "exit-0"):
+            return shape + " child did not end with exit status 0 and is recorded as passed (failures 0 want %d)" % want[0], i
         if nf != want[0]:
             return shape + " failures %d want %d" % (nf, want[0]), i
         if calls != want[1]:
@@ -944,11 +1147,33 @@ def shrink_test(t):
         for j in range(len(outs)):
             yield mk(["scr", t[1], outs[:j] + outs[j + 1:]], t.ign, t.own, t.frm)
     elif t[0] == "real":
+        e = env_of(t)
+        if e is not None:
+            base = list(t[:7])
+            yield mk(base, t.ign, t.own, t.frm)                                   # the plain real child
+            if e[1]:
+                yield mk(base + [(e[0], [], e[2])], t.ign, t.own, t.frm)
+                for j in range(len(e[1])):
+                    yield mk(base + [(e[0], e[1][:j] + e[1][j + 1:], e[2])], t.ign, t.own, t.frm)
+            if e[2]:
+                yield mk(base + [(e[0], e[1], 0)], t.ign, t.own, t.frm)
+                yield mk(base + [(e[0], e[1], e[2] // 2)], t.ign, t.own, t.frm)
+                yield mk(base + [(e[0], e[1], e[2] - 1)], t.ign, t.own, t.frm)
+            if e[0]:
+                yield mk(base + [(0, e[1], e[2])], t.ign, t.own, t.frm)
+                if e[0] != 1:
+                    yield mk(base + [(1, e[1], e[2])], t.ign, t.own, t.frm)
+        keep = e is not None and fate_class(t)[0] not in ("clean", "exit-0")
         for p in range(1, 7):
             for j in range(len(t[p])):
                 nt = list(t)
                 nt[p] = list(t[p][:j]) + list(t[p][j + 1:])
-                yield mk(nt, t.ign, t.own, t.frm)
+                nt = mk(nt, t.ign, t.own, t.frm)
+                # under a process-level configuration a child that does not end with exit status 0 stays one (the replay then shows
+                # the clause that is broken: "never recorded as passed", not only "a failing wait is a failure")
+                if keep and p < 6 and fate_class(nt)[0] in ("clean", "exit-0"):
+                    continue
+                yield nt
 
 
 def copy_steps(steps):
@@ -1049,10 +1274,18 @@ LEVEL_TEXT = ("Machine-checked (Coq) theorems over an executable model of the se
               "without -ri, their child coming from the registry-wide flag alone or from their own; the extracted model-free spec judges the "
               "implementation. Every scenario is executed in a runner process of its own under the harness as supervisor, one or several "
               "passes over one real TestRegistry: a test executed in the runner's own process that kills, ends or stops it is observed as "
-              "'runner died' and refused by the oracle.")
+              "'runner died' and refused by the oracle. Real children are forked and waited for through the library's own PlatformSpecificFork / "
+              "PlatformSpecificWaitPid implementations (the harness wraps the start-up values of the two seams), also while the program has "
+              "SIGCHLD ignored, SA_NOCLDWAIT set, a handler that reaps with waitpid(-1) first or a handler that only counts, has other "
+              "children that are dead already or end meanwhile, and while real signals interrupt the wait: proved for ANY list of wait "
+              "answers (any result, any status word) that a test has no failure only behind an answer 'exited with status 0', that the ECHILD "
+              "answer is exactly one failure behind one per reported stop, that under every configuration a child that did not end with exit "
+              "status 0 leaves a failure (in the model and, as a clause of the oracle, on whatever the implementation reports), and that a wait "
+              "wrapper turning ECHILD into a clean status is refuted against the oracle.")
 LEVEL_NOTE = ("Partial: kernel delivery of signals, zombie reaping and SIGCONT are observed on real children, not modelled beyond the default-action "
               "table and the status-word layout (both trusted, stated in C11_Model.v). Retry bound, comparison, WUNTRACED and the six message "
               "texts are re-read from UtestPlatform.cpp on every run. After an EINTR overrun or a waitpid error the runner abandons the child by "
-              "design; this is recorded, not judged.")
+              "design; this is recorded, not judged. What the kernel answers under each SIGCHLD configuration is a trusted table checked against "
+              "the real kernel on every run (the unchanged library must reproduce the model's observation on ~1300 configured scenarios).")
 TECHNIQUE = "Coq proof over hand-written executable model + extracted-model/implementation correspondence check (scripted seams + real fork/wait)"
 READY = True
